@@ -1901,4 +1901,12 @@ mod tests {
 #[allow(unused_imports, missing_docs, dead_code, unreachable_pub)]
 pub mod verif {
     use super::*;
+
+    // C28: the private response acceptance function
+    pub fn decode_and_verify<'a>(
+        request: &'a HeaderRequest,
+        responses: &'a [HeaderResponse],
+    ) -> BoxFuture<'a, Result<Vec<ExtendedHeader>, HeaderExError>> {
+        decode_and_verify_responses(request, responses).boxed()
+    }
 }
